@@ -60,6 +60,9 @@ pub struct Layout {
 	/// disk-level faults: (node index, kind) 0 = make it a directory, 1 = delete it, 2 = dangling symlink, 3 = symlink loop
 	pub disk_fault: Option<(usize, u8)>,
 	pub shape: &'static str,
+	/// per node: the file forces its first eager import while its own body is being evaluated (a failure of that import
+	/// is then a failure *inside* the evaluation of the importing file, not in a thunk read later)
+	pub forced: Vec<bool>,
 }
 
 fn body_of(l: &Layout, i: usize) -> String {
@@ -80,6 +83,10 @@ fn body_of(l: &Layout, i: usize) -> String {
 		s.push_str(&format!(", lazy{k}:: {t}"));
 	}
 	s.push_str(" })\n");
+	if l.forced.get(i).copied().unwrap_or(false) && !deps.is_empty() {
+		// the value is the same; the first eager import is evaluated while this file's own body is
+		s = format!("local forced = std.type({});\nif forced == \"function\" then null else {s}", deps[0]);
+	}
 	s
 }
 
@@ -196,7 +203,9 @@ pub fn gen_layout(src: &mut Src) -> Layout {
 		_ => {}
 	}
 	let disk_fault = if src.chance(1, 4) && n > 1 { Some((src.range(1, n as i64 - 1) as usize, src.below(4) as u8)) } else { None };
-	Layout { dirs, lib_order, nodes, decoys, links, disk_fault, shape }
+	// drawn last, so that earlier draws (and recorded tapes) keep their meaning
+	let forced: Vec<bool> = (0..nodes.len()).map(|_| src.chance(1, 3)).collect();
+	Layout { dirs, lib_order, nodes, decoys, links, disk_fault, shape, forced }
 }
 
 pub struct OnDisk {
@@ -594,7 +603,7 @@ pub fn run(run: &Run) {
 	run.set_level("fault_enumeration");
 	run.set_rule("import graphs of 2-7 files (code / text / binary; import, importstr, importbin; tree, diamond, chain, strict and lazy cycles) laid out over the importer's directory, a sub-directory and 0-3 library directories with shadowing decoys, path spellings (plain, ./, sub/../, absolute, through symlinks) and disk faults (target is a directory, deleted, dangling symlink, symlink loop, invalid UTF-8). Oracle: a resolution model (importer directory first, then the search path in order) gives the expected value or failure; a recording wrapper around the real FileImportResolver shows every file loaded and evaluated at most once per state; then EVERY resolve call and EVERY load call of the fault-free run is failed in turn (fault enumeration): the evaluation fails, an unrelated file still imports, and once the fault has cleared the same state gives the fresh-state result. A sample goes through the executable (-J order, JSONNET_PATH). Non-trivial = shadowing, symlink, cycle, disk fault or injected faults.");
 	run.assume("file permission faults cannot be produced on disk (the sandbox runs as root): they are represented by the injected ImportIo failures");
-	let n = run.tier.pick(500, 12_000);
+	let n = run.tier.pick(2_000, 30_000);
 	let counter = std::sync::atomic::AtomicU64::new(0);
 	let poison_known = run.is_known(K_POISONED);
 	run.reproduce_known(|k| {
@@ -611,6 +620,7 @@ pub fn run(run: &Run) {
 			links: vec![],
 			disk_fault: None,
 			shape: "chain",
+			forced: vec![],
 		};
 		let _ = k;
 		check(&l, false)
